@@ -48,8 +48,11 @@ def im_core(ctx):
                 c05.check_mutator(ctx, f, pub, table)
     else:
         ctx.missing("R05.1", "reader table / publication functions")
+    c05.r05_4(ctx)   # the snapshot and the receiver are taken in the same `&self` call (else updates in between are lost)
     c05.r05_5(ctx)
     c05.r05_9(ctx)
+    c08.r08_2(ctx)   # one long-lived Sender, never cloned into something that outlives the vector
+    c08.r08_4(ctx)
     fns = c07.txn_fns(F)
     commit = [f for f in fns if f.name == "commit" and (f.raw.get("self_ty") or "").startswith(c07.TXN)]
     if len(commit) == 1:
@@ -85,4 +88,5 @@ def util_buffers(ctx):
     c13.r13_1(ctx, vimp)
     c13.r13_3(ctx, vimp)
     c13.r13_6(ctx, vimp)
+    c13.r13_7(ctx, vimp)
     c13.r13_5(ctx, oimp)
